@@ -3,9 +3,11 @@ from __future__ import annotations
 
 import contextlib
 import io
+import lzma
 import os
 import struct
 import tempfile
+import traceback
 
 from hypothesis import strategies as st
 
@@ -148,7 +150,7 @@ def run_cycles(ctx, src: str, c0: dict, ref_graph, l4d2: bool, access: list, cyc
             blob = f.read()
         try:
             c1 = G.read_container(blob, l4d2)
-        except (ValueError, struct.error, IndexError) as exc:
+        except (ValueError, struct.error, IndexError, lzma.LZMAError) as exc:
             ctx.fail('container', f'{tag}: saved file is not a readable BSP container: {exc!r}', **facts)
             return
         compare_container(ctx, c0, c1, bool(access), tag)
@@ -200,6 +202,12 @@ def classify_world(ctx, w: dict, lumps: dict, game: list) -> dict:
         ctx.label('lzma')
     if any(g['lzma'] for g in game):
         ctx.label('gl_lzma')
+    used = [s.get('lzma_opts') for i, s in lumps.items() if s['lzma'] and s['data'] and i != G.PAKFILE] + [
+        g.get('lzma_opts') for g in game if g['lzma']]
+    facts['lzma_nondefault'] = any(not G.lzma_is_default(o) for o in used)
+    if facts['lzma_nondefault']:
+        ctx.label('lzma:nondefault')
+    facts['lzma_pb'] = max([o['pb'] for o in used if o], default=2)
     if len(game) > 2:
         ctx.label('gl_extra')
     if w['gl_dummy']:
@@ -225,6 +233,28 @@ def classify_world(ctx, w: dict, lumps: dict, game: list) -> dict:
     return facts
 
 
+_PRELUDE: dict = {}
+
+
+def read_prelude(opts, td: str) -> None:
+    """Read another small file whose PLANES lump is compressed with the given LZMA settings, in this process, before
+    the case proper: settings seen in one file must not influence how a later file is saved (and it pins any such
+    process-wide state to the descriptor, so a case stays a pure function of it)."""
+    from srctools.bsp import BSP
+    key = tuple(opts)
+    if key not in _PRELUDE:
+        w = G.skeleton('v20')
+        w['lzma'] = ['PLANES', 'ENTITIES']
+        w['lzma_opts'] = [list(opts)]
+        _PRELUDE[key] = G.build_bsp(w)
+    path = os.path.join(td, 'prelude.bsp')
+    with open(path, 'wb') as f:
+        f.write(_PRELUDE[key])
+    bsp = BSP(path)
+    list(bsp.planes)
+    os.unlink(path)
+
+
 def execute_synth(desc, ctx) -> None:
     from srctools.bsp import BSP
     w = G.resolve_world(desc['world'])
@@ -234,20 +264,172 @@ def execute_synth(desc, ctx) -> None:
     facts = classify_world(ctx, w, lumps, game)
     blob = G.build_bsp(w, (lumps, game))
     l4d2 = G.LAYOUTS[w['layout']].l4d2
+    prelude = desc.get('prelude', G.LZMA_DEFAULT)
+    if not G.lzma_is_default(G.lzma_opts_of(prelude)):
+        ctx.label('prelude:nondefault')
     with tempfile.TemporaryDirectory(prefix='c10_') as td:
         src = os.path.join(td, 'in.bsp')
         with open(src, 'wb') as f:
             f.write(blob)
         c0 = G.read_container(blob, l4d2)
         try:
+            read_prelude(prelude, td)
             ref = graph_of(src)
             probe = BSP(src)
             ok = (probe.game_ver.name == 'L4D2') == l4d2
         except Exception as exc:
+            if any(fr.name == 'decompress_lzma' for fr in traceback.extract_tb(exc.__traceback__)):
+                ctx.fail('lzma_input_rejected', f'a lump compressed with legal LZMA settings cannot be read: {exc!r} '
+                                                f'(lzma_opts={w.get("lzma_opts")}, prelude={prelude})', **facts)
+                return
             raise HarnessError(f'generated input is rejected by the reader: {exc!r}\nworld={w!r}') from exc
         if not ok:
             raise HarnessError(f'layout {w["layout"]} not recognised: game_ver={probe.game_ver}')
         run_cycles(ctx, src, c0, ref, l4d2, access, desc.get('cycles', 1), td, **facts)
+
+
+# ---- failing_access: one view's lump is undecodable; looking at it (and failing) must not change the file ----------
+
+# view -> views its reader or writer pulls in
+DEPS = {
+    'surfedges': ['vertexes'], 'orig_faces': ['planes', 'surfedges', 'primitives', 'texinfo'],
+    'faces': ['orig_faces', 'texinfo', 'planes', 'surfedges', 'primitives'],
+    'hdr_faces': ['orig_faces', 'texinfo', 'planes', 'surfedges', 'primitives'],
+    'brushes': ['planes', 'texinfo'], 'water_leaf_info': ['texinfo'], 'visleafs': ['brushes', 'faces'],
+    'nodes': ['planes', 'faces', 'visleafs'], 'texinfo': ['textures'], 'bmodels': ['nodes', 'faces', 'ents'],
+    'overlays': ['texinfo'], 'props': ['visleafs'],
+}
+
+
+def closure(view: str) -> set:
+    seen = set()
+    todo = [view]
+    while todo:
+        v = todo.pop()
+        if v in seen:
+            continue
+        seen.add(v)
+        todo.extend(DEPS.get(v, []))
+    return seen
+
+
+# corruption kind -> (view, lump name or game lump id)
+TRUNC = {
+    'PLANES': 'planes', 'VERTEXES': 'vertexes', 'CUBEMAPS': 'cubemaps', 'TEXINFO': 'texinfo', 'BRUSHES': 'brushes',
+    'NODES': 'nodes', 'LEAFWATERDATA': 'water_leaf_info', 'OVERLAYS': 'overlays', 'MODELS': 'bmodels',
+    'SURFEDGES': 'surfedges', 'LEAFS': 'visleafs', 'FACES': 'faces', 'ORIGINALFACES': 'orig_faces',
+    'TEXDATA_STRING_TABLE': 'textures', 'PRIMITIVES': 'primitives', 'BRUSHSIDES': 'brushes', 'TEXDATA': 'texinfo',
+}
+CORRUPTIONS = ['trunc:' + n for n in TRUNC] + ['sprp_version', 'sprp_size', 'tex_offset', 'ents_unclosed', 'dprp_type']
+
+
+def corrupt(kind: str, param: int, w: dict, lumps: dict, game: list):
+    """Make one lump undecodable.  Returns (view, [lump ids that must stay byte-identical])."""
+    if kind.startswith('trunc:'):
+        name = kind[6:]
+        idx = G.LUMP_INDEX[name]
+        lumps[idx]['data'] += bytes([1 + param % 250]) * (1 + param % 3)
+        return TRUNC[name], name
+    if kind in ('sprp_version', 'sprp_size'):
+        g = next(g for g in game if g['id'] == b'sprp')
+        if kind == 'sprp_version':
+            g['version'] = [0, 1, 3, 14, 99, 65535][param % 6]
+        else:
+            if not w['sprp']['props']:
+                return None, None
+            g['data'] += bytes(1 + param % 3)
+        return 'props', 'sprp'
+    if kind == 'dprp_type':
+        g = next(g for g in game if g['id'] == b'dprp')
+        if not w['dprp']['props']:
+            return None, None
+        data = bytearray(g['data'])
+        data[-8] = 4 + param % 200          # m_Type of the last record
+        g['data'] = bytes(data)
+        return 'detail_props', 'dprp'
+    if kind == 'tex_offset':
+        idx = G.LUMP_INDEX['TEXDATA_STRING_TABLE']
+        lumps[idx]['data'] = lumps[idx]['data'][:-4] + struct.pack('<i', 100000 + param)
+        return 'textures', 'TEXDATA_STRING_TABLE'
+    if kind == 'ents_unclosed':
+        idx = G.LUMP_INDEX['ENTITIES']
+        lumps[idx]['data'] = lumps[idx]['data'].rstrip(b'\0').rstrip()[:-1] + b'\n\0'    # drop the last "}"
+        return 'ents', 'ENTITIES'
+    raise HarnessError(kind)
+
+
+def execute_failing(desc, ctx) -> None:
+    from srctools.bsp import BSP
+    from srctools.tokenizer import TokenSyntaxError
+    w = G.resolve_world(desc['world'])
+    lumps, game = G.encode_world(w)
+    view, where = corrupt(desc['kind'], desc['param'], w, lumps, game)
+    if view is None:
+        ctx.label('not_applicable')
+        return
+    ctx.label('corrupt:' + desc['kind'])
+    ctx.label('layout:' + w['layout'])
+    blob = G.write_container(G.LAYOUTS[w['layout']], lumps, game, w['revision'], gl_dummy=w['gl_dummy'], gl_pad=w['gl_pad'])
+    l4d2 = G.LAYOUTS[w['layout']].l4d2
+    # views that neither are the broken one nor pull it in
+    safe = [v for v in G.VIEW_ORDER if view not in closure(v)]
+    others = [v for v in desc['access'] if v in safe]
+    order = list(others)
+    order.insert(desc['param'] % (len(order) + 1), view)
+    with tempfile.TemporaryDirectory(prefix='c10_') as td:
+        src = os.path.join(td, 'in.bsp')
+        with open(src, 'wb') as f:
+            f.write(blob)
+        c0 = G.read_container(blob, l4d2)
+        read_prelude(G.LZMA_DEFAULT, td)
+        bsp = BSP(src)
+        raised = None
+        for v in order:
+            if v != view:
+                getattr(bsp, v)
+                continue
+            try:
+                getattr(bsp, v)
+            except (struct.error, ValueError, IndexError, KeyError, TokenSyntaxError, AssertionError) as exc:
+                raised = type(exc).__name__
+        ctx.label('raised:' + (raised or 'nothing'))
+        ctx.nontrivial(raised is not None)
+        facts = {'kind': desc['kind'], 'view': view, 'raised': raised, 'layout': w['layout']}
+        tag = f'corrupt {where} ({desc["kind"]}), access={order}, {view} raised {raised}'
+        out = os.path.join(td, 'out.bsp')
+        save_quiet(bsp, out)
+        with open(out, 'rb') as f:
+            blob1 = f.read()
+        try:
+            c1 = G.read_container(blob1, l4d2)
+        except (ValueError, struct.error, IndexError, lzma.LZMAError) as exc:
+            ctx.fail('container', f'{tag}: saved file is not a readable BSP container: {exc!r}', **facts)
+            return
+        if raised is None:
+            return      # the reader coped with the damaged lump: an ordinary access, nothing to demand about its bytes
+        compare_container(ctx, c0, c1, True, tag)
+        if True:
+            # every lump of the view that could not be read is untouched
+            for lid in G.VIEWS[view]:
+                if isinstance(lid, int):
+                    a, b = c0['lumps'][lid]['data'], c1['lumps'][lid]['data']
+                    name = G.LUMP_NAMES[lid]
+                else:
+                    a = next(g['data'] for g in c0['game_lumps'] if g['id'] == lid)
+                    b = next(g['data'] for g in c1['game_lumps'] if g['id'] == lid)
+                    name = lid.decode()
+                ctx.check(a == b, 'failed_view_bytes', f'{tag}: lump {name} changed from {len(a)} to {len(b)} bytes '
+                                                       f'although its view could not be read', lump=name, **facts)
+        again = os.path.join(td, 'again.bsp')
+        save_quiet(BSP(out), again)
+        with open(again, 'rb') as f:
+            ctx.check(f.read() == blob1, 'resave_identical', f'{tag}: saving the saved file again changes it', **facts)
+        # parsed content of the unaffected views
+        a_bsp, b_bsp = BSP(src), BSP(out)
+        ga = G.canon([getattr(a_bsp, v) for v in safe])
+        gb = G.canon([getattr(b_bsp, v) for v in safe])
+        if ga != gb:
+            ctx.fail('parsed_content', f'{tag}: unaffected views differ after save: {G.first_diff(ga, gb)}', **facts)
 
 
 # ---------------------------------------------------------------------------------------------------------------
@@ -282,11 +464,25 @@ def strat_subsets(tier):
     })
 
 
+PRELUDE = st.one_of(st.just(G.LZMA_DEFAULT), st.sampled_from([[0, 2, 0, 16], [4, 0, 4, 12], [1, 1, 1, 14]]),
+                    st.tuples(st.integers(0, 4), st.integers(0, 4), st.integers(0, 4), st.integers(12, 20)).map(list))
+
+
 def strat_synth(tier):
     return st.fixed_dictionaries({
         'world': G.world_strategy(tier),
         'access': access_strategy(),
         'cycles': st.sampled_from([1, 1, 2]),
+        'prelude': PRELUDE,
+    })
+
+
+def strat_failing(tier):
+    return st.fixed_dictionaries({
+        'world': G.world_strategy(tier),
+        'kind': st.sampled_from(CORRUPTIONS),
+        'param': st.integers(0, 1000),
+        'access': st.lists(st.sampled_from(G.VIEW_ORDER), max_size=4),
     })
 
 
@@ -296,6 +492,7 @@ def strat_container(tier):
         'world': G.world_strategy(tier, rich=False),
         'access': st.one_of(st.just([]), st.just([]), access_strategy(max_size=2)),
         'cycles': st.sampled_from([1, 2]),
+        'prelude': PRELUDE,
     })
 
 
@@ -310,10 +507,13 @@ SUBCHECKS = [
         thorough_shards=16, floor=10),
     Sub('synth', execute_synth, strategy=strat_synth, quick=1200, thorough=24000, quick_shards=8, thorough_shards=16,
         floor=200, must_hit=_VIEW_LABELS + _LAYOUT_LABELS + (
-            'lzma', 'gl_lzma', 'gl_dummy', 'gl_extra', 'has:faces', 'has:water', 'has:vis', 'has:overlays',
+            'lzma', 'lzma:nondefault', 'prelude:nondefault', 'gl_lzma', 'gl_dummy', 'gl_extra', 'has:faces', 'has:water', 'has:vis', 'has:overlays',
             'has:brushes', 'has:phys', 'dprp:type2', 'dprp:type3', 'access:repeat')),
     Sub('container', execute_synth, strategy=strat_container, quick=400, thorough=8000, quick_shards=4,
-        thorough_shards=16, floor=5, must_hit=_LAYOUT_LABELS + ('access:none', 'lzma', 'gl_lzma', 'has:opaque')),
+        thorough_shards=16, floor=5, must_hit=_LAYOUT_LABELS + ('access:none', 'lzma', 'lzma:nondefault', 'gl_lzma', 'has:opaque')),
+    Sub('failing_access', execute_failing, strategy=strat_failing, quick=500, thorough=8000, quick_shards=4,
+        thorough_shards=16, floor=100, must_hit=_LAYOUT_LABELS + tuple('corrupt:' + k for k in CORRUPTIONS) + (
+            'raised:error', 'raised:ValueError')),
 ]
 
 MATCHERS = {}
